@@ -27,7 +27,11 @@ CondPos == <<
   <<"ApplyText", <<83,69,84,32,97,32,61,32>>, <<>>, FALSE>>,                          \* SET a = w
   <<"ApplyText", <<82,69,77,79,86,69,32>>, <<>>, FALSE>>,                             \* REMOVE w
   <<"ApplyText", <<65,68,68,32>>, <<32,58,118>>, TRUE>>,                              \* ADD w :v
-  <<"ApplyText", <<68,69,76,69,84,69,32>>, <<32,58,118>>, TRUE>> >>                   \* DELETE w :v
+  <<"ApplyText", <<68,69,76,69,84,69,32>>, <<32,58,118>>, TRUE>>,                     \* DELETE w :v
+  <<"MatchText", <<>>, <<46,97>> \o EqV, TRUE>>,                                      \* w.a = :v      (head of a document path)
+  <<"MatchText", <<>>, <<91,48,93>> \o EqV, TRUE>>,                                   \* w[0] = :v
+  <<"ApplyText", <<83,69,84,32>>, <<46,97>> \o EqV, TRUE>>,                           \* SET w.a = :v
+  <<"ApplyText", <<82,69,77,79,86,69,32>>, <<91,48,93>>, FALSE>> >>                   \* REMOVE w[0]
 Words == ReservedWords \cup { Lower(w) : w \in ReservedWords }
 Cases == { C(CondPos[i][1], CondPos[i][2] \o w \o CondPos[i][3], <<>>, IF CondPos[i][4] THEN VV ELSE <<>>) : i \in Positions, w \in Words }
   \* near misses: not reserved, must not be rejected on that account
